@@ -18,7 +18,7 @@ RULE = ('sequential: per configuration (fire_count x fire_period x window) all h
         'the real action); concurrent: N in {2,3} threads x fire_count in {1,2} x period in {0,1000ms}, every schedule with <= bound '
         'preemptions at line granularity in the limiter/handler code; non-trivial = the limiter rejected at least one hit that the '
         'condition accepted / two threads were inside the check-record window together'
-        ' ; updates facet: all histories (depth 4 quick / 6 thorough) over {hit, response repeating the tracepoint unchanged, +/- another tracepoint, changed arguments, removed, re-added} x fire_count{1,2} x action kinds, the fire count continues while every response repeats the tracepoint unchanged; 3 threads with hit times 0 / 1.5 / 1.6 periods')
+        ' ; updates facet: all histories (depth 4 quick / 6 thorough) over {hit, response repeating the tracepoint unchanged, +/- another tracepoint, changed arguments, removed, re-added, same id at another line} x fire_count{1,2} x action kinds, the fire count continues while every response repeats the tracepoint unchanged; 3 threads with hit times 0 / 1.5 / 1.6 periods')
 ASSUMPTIONS = ['thread switches at source-line granularity in action_context.py, LocationAction, TracepointExecutionStats, TriggerHandler.trace_call (opcode granularity in TracepointExecutionStats.fire in the thorough tier)',
                'window as tracepoint *arguments* uses unit-robust extremes (window_end=1, window_start=10^30): past/future whether read as ms or ns']
 
@@ -140,7 +140,7 @@ def make_trigger(desc):
                    [LocationAction('tp', 'ok(c)', cfg, LocationAction.ActionType.Snapshot)])
 
 
-UPD_OPS = ['hit', 'same', 'plus-other', 'minus-other', 'changed', 'remove', 'add-back']
+UPD_OPS = ['hit', 'same', 'plus-other', 'minus-other', 'changed', 'remove', 'add-back', 'moved']
 
 
 def case_updates(ctx, desc):
@@ -168,13 +168,13 @@ def case_updates(ctx, desc):
             f.set_result(task(*args))
             return f
 
-    def pb_a(version):
+    def pb_a(version, where=0):
         args = dict(base)
         if version:
             args['fire_period'] = '0' if version % 2 == 0 else '00'      # a different argument text: a different tracepoint configuration
             args['rev'] = str(version)
         m = [Metric(name='m', type=MetricType.COUNTER)] if desc['kinds'] == 'metric+span' else []
-        return PB(ID='A', path='c04prog.py', line_number=LINE, args=args, metrics=m)
+        return PB(ID='A', path='c04prog.py', line_number=LINE - where, args=args, metrics=m)
     other = PB(ID='B', path='c04prog.py', line_number=LINE + 1, args={'fire_count': '-1', 'fire_period': '0', 'log_msg': 'B', 'snapshot': 'no_collect'})
 
     for hist in itertools.product(range(len(UPD_OPS)), repeat=desc['depth']):
@@ -192,7 +192,7 @@ def case_updates(ctx, desc):
         push = rig.CapturePush()
         handler = TriggerHandler(cfg, push)
         # model
-        present, version, has_other, count = True, 0, False, 0
+        present, version, has_other, count, where = True, 0, False, 0, 0
         nresp = 1
         tps.update_new_config(1, 'h1', convert_response([pb_a(0)]))
         ctx.case()
@@ -229,8 +229,13 @@ def case_updates(ctx, desc):
                     if not present:
                         count = 0
                     present = True
+                elif op == 'moved':
+                    # the same id and arguments at another line (the line before, reached once per call as well): another tracepoint
+                    where = 1 - where
+                    if present:
+                        count = 0
                 nresp += 1
-                lst = ([pb_a(version)] if present else []) + ([other] if has_other else [])
+                lst = ([pb_a(version, where)] if present else []) + ([other] if has_other else [])
                 tps.update_new_config(nresp, 'h%d' % nresp, convert_response(lst))
         if any(o != 'hit' for o in ops[:ops.index('hit') + 1][:-1]) or ops.count('hit') > fc:
             ctx.nt((desc['fc'], desc['kinds'], tuple(hist)))
